@@ -12,7 +12,7 @@
    remove_all_agents, in-place shuffle/sort of model.agents and agents_by_type[c], and do/map/shuffle_do
    activations whose callbacks remove agents, create agents (for any model) and call remove_all_agents. *)
 From Coq Require Import ZArith List Bool Permutation.
-From Mesa Require Import Common.ListX Model.Registry Proofs.RegistryProofs.
+From Mesa Require Import Common.ListX Generated.Tables Model.Registry Proofs.RegistryProofs Proofs.RegistryMore.
 Import ListNotations.
 Open Scope Z_scope.
 
@@ -116,6 +116,46 @@ Theorem C02_models_independent : forall n ops o j msj,
 Proof. intros n ops o j msj w. exact (thm_frame_simple w o j msj (reachable_inv n ops)). Qed.
 Print Assumptions C02_models_independent.
 
+(* creation order: in a history without in-place shuffle/sort, model.agents and every agents_by_type set list
+   the live agents in creation order *)
+Theorem C02_creation_order : forall n ops m ms,
+  let w := final (init n) ops in
+  forallb (fun o => negb (is_reorder o)) ops = true ->
+  getm (w_models w) m = Some ms ->
+  m_all ms = live m (w_born w) (w_removed w) /\
+  forall c l, bt_get c (m_bt ms) = Some l -> l = live_cls m c (w_born w) (w_removed w).
+Proof. exact thm_creation_order. Qed.
+Print Assumptions C02_creation_order.
+
+(* the two logs the statements above are phrased with are histories: every operation, in any state, only
+   appends to them (so no record - key, model, unique_id, class - is ever altered or dropped) *)
+Theorem C02_logs_append_only : forall w o,
+  (exists ext, w_born (fst (step w o)) = w_born w ++ ext) /\
+  (exists ext, w_removed (fst (step w o)) = ext ++ w_removed w).
+Proof. exact logs_append_only. Qed.
+Print Assumptions C02_logs_append_only.
+
+(* coexisting models, activations: if no callback of the activation removes an agent of model j, creates an
+   agent for j or calls j.remove_all_agents(), model j's registry and id counter are untouched - whatever else
+   the callbacks do to other models, in whatever order the agents are activated *)
+Theorem C02_models_independent_activation : forall n ops m c shuf s j,
+  let w := final (init n) ops in
+  (forall k, act_safe w j k (script_get k s)) ->
+  getm (w_models (fst (step w (Activate m c shuf s)))) j = getm (w_models w) j.
+Proof. intros n ops m c shuf s j w. exact (thm_frame_activation w m c shuf s j (reachable_inv n ops)). Qed.
+Print Assumptions C02_models_independent_activation.
+
+(* T1: the statement order and constants the model hard-codes are the ones re-read from the source on this run *)
+Theorem C02_source_first_id : gen_agent_first_id = FIRST_ID.
+Proof. exact eq_refl. Qed.
+Print Assumptions C02_source_first_id.
+
+Theorem C02_source_statement_order :
+  gen_register_order = [RHard; RByType; RAll] /\ gen_deregister_order = [RHard; RByType; RAll] /\
+  gen_remove_suppresses_keyerror = true.
+Proof. exact (conj eq_refl (conj eq_refl eq_refl)). Qed.
+Print Assumptions C02_source_statement_order.
+
 (* ---------- non-vacuity: a history with two models, three classes, create_agents with a per-agent list,
    an activation whose callbacks remove themselves / create for the other model, a double removal ---------- *)
 Definition ex_ops : list op :=
@@ -132,3 +172,16 @@ Example C02_example :
     m_all m1 = [4; 6] /\ m_next m0 = 6 /\ m_next m1 = 3 /\ m_reord m0 = false /\ m_reord m1 = true /\
     map a_uid (born_of 0 (w_born w)) = [1; 2; 3; 4; 5] /\ map a_uid (born_of 1 (w_born w)) = [1; 2].
 Proof. vm_compute. eexists. eexists. repeat split; reflexivity. Qed.
+
+Example C02_example_activation_frame :
+  let w := final (init 2) [Create 0 0 5; Create 1 0 1; Create 0 1 2] in
+  let s := [(0, ARemoveSelf); (2, ACreate 0 3 4)] in
+  (forall k, act_safe w 1 k (script_get k s)) /\
+  forallb (fun o => negb (is_reorder o)) [Create 0 0 5; Create 1 0 1; Create 0 1 2] = true.
+Proof.
+  split; [|reflexivity]. intros k. simpl.
+  destruct (k =? 0) eqn:E0.
+  - apply Z.eqb_eq in E0. subst. intros a Ha Hk. vm_compute in Ha.
+    destruct Ha as [<-|[<-|[<-|[]]]]; simpl in *; congruence.
+  - destruct (k =? 2); simpl; [discriminate|exact I].
+Qed.
